@@ -233,7 +233,7 @@ func c09Compare(ref refBar, obs c09Obs, checkStat bool) (string, string) {
 func c09Chunks(tier string) []SeqChunk {
 	depth := 3
 	if tier == "thorough" {
-		depth = 5
+		depth = 14
 	}
 	var chunks []SeqChunk
 	for _, init := range []int64{-1, 0, 1, 2, 5} {
@@ -394,7 +394,7 @@ func init() {
 	register(&Family{
 		Property: "C09",
 		Rule: "explicit-state breadth-first search from initial totals {-1,0,1,2,5}: states are reference-model states (total, current, refill, trigger, aborted, completed; values capped at 8), each transition re-creates a real bar on a fresh container by replaying the shortest path and applies one of 25 letters " +
-			"{IncrInt64 k, SetCurrent k (k in -1,0,1,2,5), SetTotal(t,complete) (t in -1,0,2,5), EnableTriggerComplete, SetRefill r (r in -1,0,1,3), Abort(false/true)} to depth 3 (thorough 5); terminal states are not expanded. " +
+			"{IncrInt64 k, SetCurrent k (k in -1,0,1,2,5), SetTotal(t,complete) (t in -1,0,2,5), EnableTriggerComplete, SetRefill r (r in -1,0,1,3), Abort(false/true)} to depth 3 (thorough 14, or until no new state appears); terminal states are not expanded. " +
 			"After every transition Current/Completed/Aborted and the Statistics handed to a probe filler in one manually refreshed frame are compared with the reference written from the documentation. Alias pass (IncrBy, Increment, Ewma*) with and without moving-average decorators; boundary pass with 2^31, 2^62, 2^63-1 restricted to non-overflowing sums. " +
 			"states/transitions are those of the search; every case is also executed on the unmodified package (digest comparison).",
 		Items: func(tier string) []Item { return seqItems("C09", tier) },
